@@ -991,6 +991,23 @@ def replay_sig_gate(rec, work):
 
 
 def replay_file(path):
+    """./check <Cxx> --replay <path>: show the stored counterexample and, where a native scenario was
+    recorded (x86-64), run it again against the CURRENT /repo.  exit 1 = still reproduces, 0 = does not."""
     rec = json.load(open(path))
-    print(json.dumps(rec, indent=1))
-    return 0
+    summary = {k: rec.get(k) for k in ("property", "harness", "variant", "obligation", "repo_head", "counterexample", "premise", "what")}
+    print(json.dumps(summary, indent=1, default=str))
+    scn = (rec.get("replay") or {}).get("scenario")
+    if not scn:
+        print("no native scenario stored for this counterexample (simulated variant or premise): the solver's assignment above is the replay")
+        return 0
+    work = tempfile.mkdtemp(prefix="verif_replay_")
+    try:
+        r = _native(work, scn, "replay")
+        print(r.get("output", ""))
+        print("native replay against %s: %s" % (regen.REPO, r.get("detail")))
+        if r.get("reproduced") is True:
+            print("VIOLATION property=%s replay=%s" % (rec.get("property"), path))
+            return 1
+        return 0 if r.get("reproduced") is False else 2
+    finally:
+        shutil.rmtree(work, ignore_errors=True)
